@@ -443,6 +443,18 @@ impl Bitstr {
     }
 }
 
+#[cfg(feature = "verif_hooks")]
+impl Bitstr {
+    /// (strong count of the backing buffer, buffer length in bytes, buffer is borrowed, bit range)
+    pub fn verif_storage(&self) -> (usize, usize, bool, BitstrRange) {
+        let borrowed = match &*self.data {
+            Cow::Borrowed(_) => true,
+            Cow::Owned(_) => false,
+        };
+        (Rc::strong_count(&self.data), self.data.len(), borrowed, self.range.clone())
+    }
+}
+
 impl PartialEq for Bitstr {
     fn eq(&self, other: &Bitstr) -> bool {
         self.eq_with(other)
